@@ -215,6 +215,27 @@ def run_case(case, rec):
             if not longkeys and not _check_sorted(ref, rec, case, t):
                 return
             rec.nt(canon.digest(v, ordered=True))
+            # "encoding the same table twice gives identical bytes" whatever
+            # was encoded in between: enough other scalars to evict a
+            # bounded memo, then EQUAL tables whose values have other types
+            # (1 / 1.0 / True / Decimal(1), 11.5 / 11.50, -0.0 / 0.0), then
+            # the same table again
+            if rec.evaluations % 6 == 0:
+                common.encode_twins(v, common.RND, 0, churn=1100 if
+                                    rec.evaluations % 18 else 2300)
+                common.encode_twins(v, common.RND, 2)
+                again = call(fn, copy.deepcopy(v))
+                rec.count('twins_between_two_encodings')
+                if not again.ok or again.value != ref:
+                    rec.violation(
+                        'not-deterministic:after-equal-twins',
+                        'the same %s encodes differently after other values '
+                        'and equal values of other types were encoded in '
+                        'between (%s)' % (t, again.describe() if not again.ok
+                                          else 'bytes differ'), case,
+                        observed=common.hexs(again.value) if again.ok
+                        else None, expected=common.hexs(ref))
+                    return
             # the caller's decimal context must not matter
             if common.has_decimal(v):
                 for ctx in common.narrow_contexts():
